@@ -66,6 +66,7 @@ def main():
     meta = json.load(open(mp)) if os.path.exists(mp) else {"id": sid}
     runs = [r for r in meta.get("checks_run", []) if r["check"] not in {x["check"] for x in results}]
     meta["checks_run"] = runs + results
+    meta["base_commit_of_last_run"] = subprocess.run(["git", "-C", "/repo", "rev-parse", "HEAD"], stdout=subprocess.PIPE, text=True).stdout.strip()
     meta["caught_by"] = sorted({r["check"].split()[1] for r in meta["checks_run"] if r["caught"]})
     json.dump(meta, open(mp, "w"), indent=1)
 
